@@ -47,13 +47,22 @@ def judge (inp obs : List String) : Verdict :=
       let m := showOutcome (route table q rd)
       let corr := if isPanic then agreeIf (m == "panic") s!"model={m}" else agreeIf (m == res) s!"model={m}"
       let allowed := (specOutcomes table q rd).map showOutcome
-      let spec :=
+      -- the table as loaded against the table as written: `kinds=` has one letter per route of the document, `N` for
+      -- `type: forge-nxdomain`, `F` otherwise (the dump starts each route with the same letter)
+      let gotKinds := String.ofList ((routesS.splitOn "+").filterMap fun r => r.toList.head?)
+      let kindSpec := match kv inp "kinds" with
+        | some want => if routesS != "-" && want != gotKinds then
+            [s!"unsat:C15.route_type_as_configured:{if want.length == gotKinds.length then "forge-or-forward-swapped" else "routes-lost"}"] else []
+        | none => []
+      let spec0 :=
         if isPanic || allowed.contains "panic" then
           (if isPanic then "unsat:C19.accepted_config_safe:forward-route-without-servers" else "na")
         else if allowed.contains res then "sat"
         else
           let caseOnly := table.any fun r => r.suffixes.any fun s => specMatches q s && !(lowerName s == s && lowerName q == q)
           s!"unsat:C15.longest_suffix_wins:{if caseOnly then "case-differs" else "other"}"
+      let spec := if kindSpec.isEmpty then spec0 else
+        ";".intercalate ((if spec0.startsWith "unsat" then [spec0] else []) ++ kindSpec)
       { corr, spec }
     | none => badInput "route-dump"
   | _, _, _, _ =>
